@@ -481,7 +481,11 @@ func (g *gen) fill(s *Spec) {
 		s.Challenge = g.cm && s.IngKind == "regular" && s.NS == "ns1" && s.Name == "c" && r.Chance(1, 2)
 		if s.Challenge {
 			s.Hosts = s.Hosts[:1]
-			s.Paths = []string{"/.well-known/acme-challenge/tok"}
+			// the token (and with it the route the Ingress is converted into) changes with every edit: an update in
+			// place must reach the VirtualServer that serves the challenge.  An object of generation g always has the
+			// same token, so that a delete-and-recreate (generation 1 again) does not change it: the converted route
+			// carries namespace, name and generation only (finding F94b).
+			s.Paths = []string{fmt.Sprintf("/.well-known/acme-challenge/tok%d", s.Gen%3)}
 		}
 	case "vs":
 		s.Host = vh.Pick(r, hosts[:4])
@@ -808,7 +812,46 @@ func (g *gen) episode() []Event {
 		}
 		return s
 	}
-	switch r.Intn(7) {
+	switch r.Intn(9) {
+	case 7:
+		// one TransportServer takes a (listener, host) pair over and hands another one over in the same event:
+		// b holds l1, a (older) holds l2 with c waiting behind it; a moves from l2 to l1 (or the mirror image)
+		la, lb := "l3", "dns-tcp"
+		if r.Bool() {
+			la, lb = lb, la
+		}
+		gc := Spec{Kind: "gc", Listeners: []k8s.VListener{{Name: "l3", Port: 9000, Proto: "TCP"}, {Name: "dns-tcp", Port: 5353, Proto: "TCP"}}}
+		g.gcLive, g.gcSpec = true, gc
+		out = append(out, Event{Op: "upsert", Spec: gc, Note: "episode-gc"})
+		tb := mk("ts", "a-b", "b", 2000)
+		tb.LName, tb.Proto = la, "TCP"
+		up(tb, "episode-ts-holder")
+		ta := mk("ts", "ns1", "a", 1000)
+		ta.LName, ta.Proto = lb, "TCP"
+		ta = up(ta, "episode-ts-older")
+		tc := mk("ts", "ns1", "c", 3000)
+		tc.LName, tc.Proto = lb, "TCP"
+		up(tc, "episode-ts-waiting")
+		ta.Gen++
+		ta.LName = la
+		up(ta, "episode-ts-moves")
+	case 8:
+		// a cert-manager challenge Ingress is edited in place: the VirtualServer serving the challenge follows
+		if g.cm {
+			h := vh.Pick(r, hosts[:3])
+			v := mk("vs", "ns1", "a", stamps[0])
+			v.Host = h
+			up(v, "episode-vs")
+			ci := mk("ing", "ns1", "c", stamps[1])
+			ci.IngKind, ci.Hosts, ci.Challenge = "regular", []string{h}, true
+			ci.Paths = []string{"/.well-known/acme-challenge/tok1"}
+			ci = up(ci, "episode-challenge")
+			for i := 0; i < 1+r.Intn(2); i++ {
+				ci.Gen++
+				ci.Paths = []string{fmt.Sprintf("/.well-known/acme-challenge/tok%d", ci.Gen%3)}
+				ci = up(ci, "episode-challenge-edit")
+			}
+		}
 	case 4:
 		// three TransportServers of different age on one listener (the controller walks them in map order)
 		gc := Spec{Kind: "gc", Listeners: []k8s.VListener{{Name: "l3", Port: 9000, Proto: "TCP"}, {Name: "dns-udp", Port: 5353, Proto: "UDP"}}}
